@@ -67,5 +67,10 @@ PROPS = {
         "rule": "as C08 but all 25 kinds uniformly, 10% of the create-collection events with a nullable field carrying a default value (known finding class 1); one fixed witness of that class first; non-trivial = at least two downstream calls, distinct by (environment, ops)",
         "assumptions": ["the replicate meta store does not fail on RemoveTaskMsg"],
     },
+    "C07": {
+        "harness": "h_c07",
+        "n": {"quick": 800, "thorough": 20000, "search": 2000},
+        "level_text": "TODO", "level_note": "TODO", "rule": "TODO",
+    },
 }
 
